@@ -949,7 +949,12 @@ class ServerTls(Server):
         If successful move to .ixes
         """
         for ca, cx in self.cxes.items():
-            if cx.serviceHandshake():
+            try:
+                done = cx.serviceHandshake()
+            except Exception:
+                del self.cxes[ca]  # handshake already closed the socket, drop the dead entry
+                raise
+            if done:
                 if ca in self.ixes and self.ixes[ca] is not cx:
                     self.shutdownIx(ca)
                 self.ixes[ca] = cx
